@@ -99,7 +99,7 @@ def c02a(ck, prog):
     roots += prog.find(r"^ohkami::request::headers::Header::from_bytes$") + prog.find(r"^ohkami::request::headers::Headers::(append|insert_custom|get_raw)$")
     rr = ReachRule(ck, prog, "C02-a REACH parser", roots, audit=AUDIT, stop=STOP)
     sinks = rr.run()
-    ck.floor("C02-a REACH parser", "sinks examined", len(sinks), 25)
+    ck.floor("C02-a REACH parser", "functions reached from the parser", len(rr.R.reached), 15)
 
 
 def c02b(ck, prog):
@@ -111,7 +111,7 @@ def c02b(ck, prog):
     ck.floor("C02-b REACH accessors", "accessor functions", len(roots), 55)
     rr = ReachRule(ck, prog, "C02-b REACH accessors", roots, audit=AUDIT, stop=STOP + [r"^ohkami::util::iter_cookies$"])
     sinks = rr.run()
-    ck.floor("C02-b REACH accessors", "sinks examined", len(sinks), 50)
+    ck.floor("C02-b REACH accessors", "functions reached from the accessors", len(rr.R.reached), 55)
 
 
 def c02c(ck, prog):
